@@ -139,3 +139,20 @@ Theorem C12_chunk_first_error_token_line :
   forall ts rest, parse_chunk ts = Err rest -> exists pre, ts = pre ++ rest.
 Proof. exact chunk_first_error_token. Qed.
 Print Assumptions C12_chunk_first_error_token_line.
+
+(* ---- what is outside the manual's grammar is rejected at the offending token (round 6: the model mirrors the
+   repaired Parser.prefixExp / Field / FunctionDef); re-evaluated by the kernel on the witnesses *)
+Example C12_round6_rejections :
+  (* (a) = 1 : a parenthesised variable is not a variable *)
+  parse_chunk [TLParen; TName 1; TRParen; TAssign; TNum 1] = Err [TAssign; TNum 1]
+  (* a, (b) = 1, 2 *)
+  /\ parse_chunk [TName 1; TComma; TLParen; TName 2; TRParen; TAssign; TNum 1; TComma; TNum 2]
+     = Err [TAssign; TNum 1; TComma; TNum 2]
+  (* (a).b = 1 is an assignment *)
+  /\ parse_chunk [TLParen; TName 1; TRParen; TDot; TName 2; TAssign; TNum 1]
+     = Ok (BCons (SAssign [EIndex (EName 1) (EStr 2)] [ENum 1]) (BNil None))
+  (* {(a) = 1} : the key of  Name '=' exp  is a name token *)
+  /\ parse [TLBrace; TLParen; TName 1; TRParen; TAssign; TNum 1; TRBrace] = Err [TAssign; TNum 1; TRBrace]
+  (* function f(a,) end : a comma in a parameter list is followed by a name or '...' *)
+  /\ parse_chunk [TFunction; TName 1; TLParen; TName 2; TComma; TRParen; TEnd] = Err [TRParen; TEnd].
+Proof. repeat split; vm_compute; reflexivity. Qed.
